@@ -88,6 +88,7 @@ type VObs struct {
 	// C05 call shape / naming
 	RevChainLen    int    `json:"revChainLen"`
 	RevZeroTime    bool   `json:"revZeroTime"`
+	RevTimeWrong   bool   `json:"revTimeWrong"` // the signing time handed to the validator is not the instant the signature states
 	TsaRevCalled   bool   `json:"tsaRevCalled"`
 	TsaRevZeroTime bool   `json:"tsaRevZeroTime"`
 	RevIface       string `json:"revIface"`
@@ -213,6 +214,9 @@ func buildAndVerify(vc vcase) VObs {
 	fx := newVFixture(in, scheme, vc)
 	fx.payloadSalt = vc.sigMut
 	env := fx.envelope(vc)
+	if fx.scheme == signature.SigningSchemeX509SigningAuthority {
+		fx.rev.wantTime = at(fx.signingTime)
+	}
 
 	// ----- policy ---------------------------------------------------------
 	sv := levelToStatement(in.Level, vc.baseIdx)
@@ -457,6 +461,7 @@ func buildAndVerify(vc vcase) VObs {
 		obs.RevCalled = true
 		c := fx.rev.calls[0]
 		obs.RevChainLen, obs.RevZeroTime, obs.RevIface = c.ChainLen, c.ZeroTime, c.Iface
+		obs.RevTimeWrong = c.TimeWrong
 		// the complete chain of the signature, in order
 		for i, t := range c.ChainThumbs {
 			if i >= len(fx.chain.Certs) || t != thumb(fx.chain.Certs[i]) {
